@@ -54,7 +54,8 @@ pub fn all_probes<H: HB>(prop: &str, universe: &[u32]) -> Vec<Box<dyn Probe<H>>>
         "C13m" => vec![Box::new(IterPrograms { which: vec![It::Iter, It::IntoIter, It::Drain, It::Sorted], extra_len: 1, sorted_vecs: false, adaptors: false, full_upto: 12 })],
         "C13" => vec![Box::new(IterPrograms { which: vec![It::Iter, It::IterRef, It::IntoIter, It::Drain, It::Sorted], extra_len: 2, sorted_vecs: false, adaptors: true, full_upto: 12 })],
         "C16" => vec![Box::new(EmptiedLikeFresh { universe: universe.to_vec(), prios })],
-        "C11" => vec![Box::new(OfferedVsStored { universe: universe.to_vec() })],
+        "C11" | "C03" => vec![Box::new(OfferedVsStored { universe: universe.to_vec() })],
+        "C05" => vec![Box::new(ZeroCost)],
         "C08" => vec![Box::new(BulkMutationPrograms { universe: universe.to_vec(), prios, all_tables: false })],
         "C08t" => vec![Box::new(BulkMutationPrograms { universe: universe.to_vec(), prios, all_tables: true })],
         "C14" => vec![Box::new(CloneIndependence { universe: universe.to_vec(), prios })],
@@ -901,8 +902,47 @@ pub struct OfferedVsStored {
 }
 
 impl OfferedVsStored {
-    fn run<Q: QueueLike>(&self, q: &Q, m: &Model) -> Result<u64, String> {
+    /// push / change_priority / change_priority_by always store the OFFERED value and hand back the
+    /// previously STORED one, also when the two rank equal.
+    fn run_updates<Q: QueueLike>(&self, q: &Q, m: &Model) -> Result<u64, String> {
         let mut cases = 0;
+        for (&k, &(_, stored)) in m.iter() {
+            for delta in [-1i32, 0, 1] {
+                let Some(offer) = stored.checked_add(delta) else { continue };
+                for which in 0..4 {
+                    cases += 1;
+                    let mut c = q.clone();
+                    let (name, ret): (&str, Option<(i32, u8)>) = match which {
+                        0 => ("push", c.q_push(Item::new(k, 0xEE), Prio::tagged(offer, 7)).map(|p| (p.v, p.tag))),
+                        1 => ("change_priority", c.q_change_priority(&Item::new(k, 0xEE), Prio::tagged(offer, 7)).map(|p| (p.v, p.tag))),
+                        2 => ("change_priority (borrowed key)", c.q_change_priority_b(&Key(k), Prio::tagged(offer, 7)).map(|p| (p.v, p.tag))),
+                        _ => {
+                            let mut seen = None;
+                            let ok = c.q_change_priority_by_b(&Key(k), |p| {
+                                seen = Some((p.v, p.tag));
+                                *p = Prio::tagged(offer, 7);
+                            });
+                            ("change_priority_by", if ok { seen } else { None })
+                        }
+                    };
+                    let now = c.q_get_priority_b(&Key(k)).map(|p| (p.v, p.tag));
+                    if ret != Some((stored, 0)) {
+                        return Err(format!("{name}({k}, {offer}) on stored {stored}: handed back {ret:?}, expected the previously stored value ({stored}, tag 0)"));
+                    }
+                    if now != Some((offer, 7)) {
+                        return Err(format!("{name}({k}, {offer}) on stored {stored}: the queue now holds {now:?}, expected the value just assigned ({offer}, tag 7)"));
+                    }
+                    let s = c.snap();
+                    check_tables(&s)?;
+                    check_order(&s, Q::DOUBLE).map_err(|e| format!("after {name}({k}, {offer}): {e}"))?;
+                }
+            }
+        }
+        Ok(cases)
+    }
+
+    fn run<Q: QueueLike>(&self, q: &Q, m: &Model) -> Result<u64, String> {
+        let mut cases = self.run_updates(q, m)?;
         let before = q.snap();
         for (&k, &(_, stored)) in m.iter() {
             for inc in [true, false] {
@@ -940,6 +980,59 @@ impl OfferedVsStored {
 impl<H: HB> Probe<H> for OfferedVsStored {
     fn name(&self) -> String {
         "offered-vs-stored-priority".into()
+    }
+    fn on_state(&self, q: &AnyQ<H>, m: &Model, _unordered: bool) -> Result<u64, String> {
+        with_q!(q, x => self.run(x, m))
+    }
+}
+
+/// C05: peeks, len and lookups compare nothing (peek_max at most once), from every state.
+pub struct ZeroCost;
+
+impl ZeroCost {
+    fn run<Q: QueueLike>(&self, q: &Q, m: &Model) -> Result<u64, String> {
+        let mut cases = 0;
+        macro_rules! zero {
+            ($label:expr, $max:expr, $body:expr) => {{
+                reset_calls();
+                let _ = $body;
+                let c = cmp_count();
+                cases += 1;
+                if c > $max {
+                    return Err(format!("{} on a {} of {} elements made {c} comparisons; at most {} allowed", $label, Q::KIND, m.len(), $max));
+                }
+            }};
+        }
+        zero!(if Q::DOUBLE { "peek_max" } else { "peek" }, if Q::DOUBLE { 1 } else { 0 }, q.q_peek_hi().map(|x| x.1.v));
+        if Q::DOUBLE {
+            zero!("peek_min", 0, q.q_peek_lo().map(|x| x.1.v));
+        }
+        zero!("len/is_empty/capacity", 0, (q.q_len(), q.q_is_empty(), q.q_capacity()));
+        let mut c = q.clone();
+        zero!(if Q::DOUBLE { "peek_max_mut" } else { "peek_mut" }, if Q::DOUBLE { 1 } else { 0 }, c.q_peek_hi_mut().map(|x| x.1.v));
+        if Q::DOUBLE {
+            zero!("peek_min_mut", 0, c.q_peek_lo_mut().map(|x| x.1.v));
+        }
+        for k in m.keys().copied().chain(std::iter::once(u32::MAX)) {
+            zero!("get", 0, q.q_get_b(&Key(k)).map(|x| x.1.v));
+            zero!("get_priority", 0, q.q_get_priority(&Item::new(k, 0)).map(|x| x.v));
+            zero!("get_mut", 0, c.q_get_mut_b(&Key(k)).map(|x| x.1.v));
+        }
+        zero!("iter", 0, {
+            let mut it = q.q_iter();
+            let mut n = 0;
+            while it.nx().is_some() {
+                n += 1;
+            }
+            n
+        });
+        Ok(cases)
+    }
+}
+
+impl<H: HB> Probe<H> for ZeroCost {
+    fn name(&self) -> String {
+        "zero-comparison-observers".into()
     }
     fn on_state(&self, q: &AnyQ<H>, m: &Model, _unordered: bool) -> Result<u64, String> {
         with_q!(q, x => self.run(x, m))
